@@ -38,6 +38,17 @@ pub struct FsState {
     /// log of (path, offset, requested, served) for each read
     pub log: Vec<(usize, usize, usize)>,
     pub log_on: bool,
+    /// content hash per file (identifies the environment of a statement for the guard)
+    pub hashes: BTreeMap<String, u64>,
+}
+
+fn fnv_bytes(b: &[u8]) -> u64 {
+    let mut h: u64 = 0xcbf29ce484222325;
+    for x in b {
+        h ^= *x as u64;
+        h = h.wrapping_mul(0x100000001b3);
+    }
+    h ^ ((b.len() as u64) << 32)
 }
 
 #[derive(Debug, Clone, Default)]
@@ -65,13 +76,41 @@ impl VerifFs {
         Self::default()
     }
     pub fn put(&self, path: &str, data: Vec<u8>) {
-        self.st.lock().files.insert(norm(path), Arc::new(data));
+        let h = fnv_bytes(&data);
+        let mut st = self.st.lock();
+        st.hashes.insert(norm(path), h);
+        st.files.insert(norm(path), Arc::new(data));
     }
     pub fn remove(&self, path: &str) {
-        self.st.lock().files.remove(&norm(path));
+        let mut st = self.st.lock();
+        st.files.remove(&norm(path));
+        st.hashes.remove(&norm(path));
     }
     pub fn clear_files(&self) {
-        self.st.lock().files.clear();
+        let mut st = self.st.lock();
+        st.files.clear();
+        st.hashes.clear();
+    }
+    /// Hash of the environment a statement runs in: file contents and the answer script.
+    pub fn state_hash(&self) -> u64 {
+        let st = self.st.lock();
+        if st.files.is_empty() && st.script.is_empty() {
+            return 0;
+        }
+        let mut h: u64 = 17;
+        for (p, x) in &st.hashes {
+            h = h.wrapping_mul(31).wrapping_add(fnv_bytes(p.as_bytes())).wrapping_mul(31).wrapping_add(*x);
+        }
+        for (i, a) in &st.script {
+            let code: u64 = match a {
+                Answer::Full => 1,
+                Answer::Short(k) => 2 + (*k as u64) * 8,
+                Answer::Pending => 3,
+                Answer::Err => 4,
+            };
+            h = h.wrapping_mul(31).wrapping_add(*i as u64 * 1000 + code);
+        }
+        h.wrapping_add(st.max_chunk.unwrap_or(0) as u64)
     }
     pub fn set_script(&self, script: BTreeMap<usize, Answer>) {
         let mut st = self.st.lock();
@@ -146,6 +185,10 @@ impl FileHandle for VHandle {
             st.log.push((p, buf.len(), count));
         }
         drop(st);
+        if count == 0 {
+            // at or beyond the end of the file (a seek past the end is allowed, reads return 0)
+            return Poll::Ready(Ok(0));
+        }
         buf[..count].copy_from_slice(&self.data[self.pos..self.pos + count]);
         self.pos += count;
         Poll::Ready(Ok(count))
